@@ -193,7 +193,7 @@ def run_one(ch, env):
     fmt = override or default_fmt
     workers = (2, 1, 3, 4)[ch.draw(4, kind="workers")]
     prior = ch.draw(3, kind="prior_state") == 2 and not big
-    concurrent = update and kind != "RGB" and ch.draw(3, kind="concurrent") == 2 and not big
+    concurrent = update and kind != "RGB" and ch.draw(2, kind="concurrent") == 1 and not big
 
     cfg = None
     if big:
